@@ -272,7 +272,10 @@ Definition cenv_rel (ce : cenv) (vg vn vf : nat) : Prop :=
              | None => mem x (procs O ++ firstn vf (w_foreign W)) = false
              end) /\
   (exists rest, p_structs C = c_structs ce ++ rest) /\
-  (exists rest, w_structs W = c_structs ce ++ rest).
+  ((exists rest, w_structs W = c_structs ce ++ rest) /\
+   (* unit_name_to_constant_index: the entry points at the unit's constant *)
+   (forall x i, unit_lookup x (c_units ce) = Some i ->
+                nth_error (p_consts C) i = Some (CUnit x) /\ mem x (w_units W) = true)).
 
 Lemma cenv_rel_locals : forall ce ls vg vn vf, cenv_rel ce vg vn vf -> cenv_rel (with_locals ce ls) vg vn vf.
 Proof. intros. exact H. Qed.
@@ -335,7 +338,7 @@ Proof. intros. apply steps_one. rewrite (step_at _ _ _ _ _ _ _ _ H). assumption.
 (* ---- leaves *)
 Lemma ok_const : forall ce L fi fp frs c,
   comp_ok ce L fi fp frs
-    (fun nk na => {| f_consts := [c]; f_code := [ILoadConstant nk]; f_na := na |}) [const_to_value c].
+    (fun nk na => {| f_consts := [c]; f_code := [ILoadConstant nk]; f_na := na |}) [const_to_value O c].
 Proof.
   unfold comp_ok; simpl; intros ce L fi fp frs c nk na ip stk s Hs Hl Ha Hk Hm.
   exists 1. eapply run_one; [exact Ha|]. simpl.
@@ -1232,7 +1235,7 @@ Proof.
     apply cseq_ok. apply Forall2_rev.
     apply Forall2_of_Forall. eapply Forall_impl; [|exact Fsz]. intros z [Hz _]. exact Hz. }
   rewrite Vsz in Hcs.
-  destruct Hrel as (_ & _ & _ & _ & _ & [rest6 H6] & [rest7 H7]).
+  destruct Hrel as (_ & _ & _ & _ & _ & [rest6 H6] & [[rest7 H7] _]).
   pose proof (index_of_assoc_fst sname (c_structs ce)) as Hix.
   destruct (index_of sname (map fst (c_structs ce))) as [sidx|] eqn:Ei.
   - destruct (assoc sname (c_structs ce)) as [fs'|] eqn:Ea'; [|contradiction].
@@ -1254,6 +1257,19 @@ Proof.
     + intros nk na ip stk s Hm. discriminate.
 Qed.
 
+Lemma ok_unit : forall n vg vn vf L x v ce fi fp frs,
+  eval O lits (S n) W vg vn vf L (EUnit x) = Ok v -> cenv_rel ce vg vn vf ->
+  comp_ok ce L fi fp frs (cexpr ce (EUnit x)) [v].
+Proof.
+  intros n vg vn vf L x v ce fi fp frs H Hrel. simpl in H.
+  destruct (mem x (w_units W)); [|discriminate]. inversion H; subst v.
+  destruct Hrel as (_ & _ & _ & _ & _ & _ & _ & Hu).
+  unfold comp_ok; intros nk na ip stk s Hs Hl Ha Hk Hm. simpl in *.
+  destruct (unit_lookup x (c_units ce)) as [idx|] eqn:E.
+  - destruct (Hu x idx E) as [Hc _]. exists 1. eapply run_one; [exact Ha|]. simpl. rewrite Hc. reflexivity.
+  - discriminate Hm.
+Qed.
+
 Theorem expr_correct : RelW -> forall n, expr_ok n.
 Proof.
   intros HW. induction n as [|n IH]; unfold expr_ok; intros vg vn vf L e v H ce fi fp frs Hrel.
@@ -1263,6 +1279,7 @@ Proof.
     + simpl in H. inversion H. apply (ok_const ce L fi fp frs (CBool b)).
     + destruct (fst lits) eqn:El; [eapply ok_string; eassumption | simpl in H; rewrite El in H; discriminate].
     + simpl in H. eapply ok_ident; eassumption.
+    + eapply ok_unit; eassumption.
     + eapply ok_un; eassumption.
     + eapply ok_bin; eassumption.
     + eapply ok_call; eassumption.
@@ -1361,20 +1378,22 @@ Definition pre (a b : @cstate Q) : Prop :=
   (exists r, s_main b = s_main a ++ r) /\
   (exists r, s_fns b = s_fns a ++ r) /\
   (exists r, c_ffi (s_env b) = c_ffi (s_env a) ++ r) /\
-  (exists r, c_structs (s_env b) = c_structs (s_env a) ++ r).
+  ((exists r, c_structs (s_env b) = c_structs (s_env a) ++ r) /\
+   (exists r, s_strings b = s_strings a ++ r)).
 
 Lemma pre_refl : forall a, pre a a.
 Proof. intro a. repeat split; exists []; rewrite app_nil_r; reflexivity. Qed.
 
 Lemma pre_trans : forall a b c, pre a b -> pre b c -> pre a c.
 Proof.
-  intros a b c (A1 & A2 & A3 & A4 & A5) (B1 & B2 & B3 & B4 & B5).
+  intros a b c (A1 & A2 & A3 & A4 & A5 & A6) (B1 & B2 & B3 & B4 & B5 & B6).
   repeat split.
   - destruct A1 as [r1 E1], B1 as [r2 E2]. exists (r1 ++ r2). rewrite E2, E1, app_assoc. reflexivity.
   - destruct A2 as [r1 E1], B2 as [r2 E2]. exists (r1 ++ r2). rewrite E2, E1, app_assoc. reflexivity.
   - destruct A3 as [r1 E1], B3 as [r2 E2]. exists (r1 ++ r2). rewrite E2, E1, app_assoc. reflexivity.
   - destruct A4 as [r1 E1], B4 as [r2 E2]. exists (r1 ++ r2). rewrite E2, E1, app_assoc. reflexivity.
   - destruct A5 as [r1 E1], B5 as [r2 E2]. exists (r1 ++ r2). rewrite E2, E1, app_assoc. reflexivity.
+  - destruct A6 as [r1 E1], B6 as [r2 E2]. exists (r1 ++ r2). rewrite E2, E1, app_assoc. reflexivity.
 Qed.
 
 Lemma add_key_pre : forall x l, exists r, add_key x l = l ++ r.
@@ -1397,6 +1416,9 @@ Proof.
   - repeat split; try (exists []; rewrite app_nil_r; reflexivity). apply add_struct_pre.
   - destruct (index_of name (c_ffi (s_env st))); simpl;
       repeat split; try (exists []; rewrite app_nil_r; reflexivity); eexists; reflexivity.
+  - repeat split; exists []; rewrite app_nil_r; reflexivity.
+  - repeat split; try (exists []; rewrite app_nil_r; reflexivity); eexists; reflexivity.
+  - repeat split; try (exists []; rewrite app_nil_r; reflexivity); eexists; reflexivity.
 Qed.
 
 Lemma cstmts_pre : forall (p : program Q) st, pre st (cstmts p st).
@@ -1459,17 +1481,19 @@ Definition wext (W W' : @world Q) : Prop :=
   (exists r, w_globals W' = w_globals W ++ r) /\
   (exists r, w_fns W' = w_fns W ++ r) /\
   (exists r, w_foreign W' = w_foreign W ++ r) /\
-  (exists r, w_structs W' = w_structs W ++ r).
+  ((exists r, w_structs W' = w_structs W ++ r) /\
+   (exists r, w_units W' = w_units W ++ r)).
 
 Lemma cenv_rel_grow : forall W W' ce vg vn vf,
   cenv_rel O C W ce vg vn vf ->
   vg <= length (w_globals W) -> vn <= length (w_fns W) -> vf <= length (w_foreign W) ->
   wext W W' -> cenv_rel O C W' ce vg vn vf.
 Proof.
-  intros W W' ce vg vn vf (H1 & H2 & H3 & H4 & H5 & H6 & H7) Lg Ln Lf ([g Eg] & [f Ef] & [o Eo] & [s Es]).
-  unfold cenv_rel. rewrite Eg, Ef, Eo, Es. rewrite !firstn_app_le by assumption.
-  refine (conj H1 (conj H2 (conj H3 (conj H4 (conj H5 (conj H6 _)))))).
-  destruct H7 as [r E]. exists (r ++ s). rewrite E, app_assoc. reflexivity.
+  intros W W' ce vg vn vf (H1 & H2 & H3 & H4 & H5 & H6 & H7 & H8) Lg Ln Lf ([g Eg] & [f Ef] & [o Eo] & [s Es] & [u Eu]).
+  unfold cenv_rel. rewrite Eg, Ef, Eo, Es, Eu. rewrite !firstn_app_le by assumption.
+  refine (conj H1 (conj H2 (conj H3 (conj H4 (conj H5 (conj H6 (conj _ _))))))).
+  - destruct H7 as [r E]. exists (r ++ s). rewrite E, app_assoc. reflexivity.
+  - intros x i Hx. destruct (H8 x i Hx) as [A B]. split; [exact A|]. rewrite mem_app, B. reflexivity.
 Qed.
 
 Definition fun_ok (W : @world Q) (i : nat) (name : string) (fd : @fdef Q) : Prop :=
@@ -1628,7 +1652,7 @@ Proof.
   destruct HI as (Hp & Hrel & Hloc & Hst & Hf & Hlen & Ems).
   set (W := r_world rst) in *.
   assert (Hext : wext W {| w_globals := w_globals W ++ [(x, v)]; w_fns := w_fns W;
-                           w_foreign := w_foreign W; w_structs := w_structs W; w_last := w_last W |}).
+                           w_foreign := w_foreign W; w_structs := w_structs W; w_last := w_last W; w_units := w_units W |}).
   { repeat split; simpl; try (exists []; rewrite app_nil_r; reflexivity). exists [(x, v)]. reflexivity. }
   eexists k1, _. split; [exact S1|].
   refine (conj Hpre (conj _ (conj Hloc (conj Hst (conj _ (conj Hlen _)))))).
@@ -1654,11 +1678,12 @@ Proof.
   set (fd := {| fd_params := params; fd_locals := wl; fd_body := body;
                 fd_nglob := length (w_globals W); fd_nforeign := length (w_foreign W) |}).
   set (W' := {| w_globals := w_globals W; w_fns := w_fns W ++ [(f, fd)]; w_foreign := w_foreign W;
-                w_structs := w_structs W; w_last := w_last W |}).
+                w_structs := w_structs W; w_last := w_last W; w_units := w_units W |}).
   set (ce' := {| c_globals := c_globals (s_env st); c_locals := None;
                  c_functions := c_functions (s_env st) ++ [(f, false)];
                  c_chunks := c_chunks (s_env st) ++ [f];
-                 c_ffi := c_ffi (s_env st); c_structs := c_structs (s_env st) |}) in *.
+                 c_ffi := c_ffi (s_env st); c_structs := c_structs (s_env st);
+                 c_units := c_units (s_env st) |}) in *.
   assert (Hext : wext W W').
   { repeat split; simpl; try (exists []; rewrite app_nil_r; reflexivity). exists [(f, fd)]. reflexivity. }
   assert (Hrel' : cenv_rel O C W' ce' (length (w_globals W)) (length (w_fns W) + 1) (length (w_foreign W))).
@@ -1719,7 +1744,7 @@ Proof.
   destruct HI as (Hp & Hrel & Hloc & Hst & Hf & Hlen & Ems).
   set (W := r_world rst) in *.
   set (W' := {| w_globals := w_globals W; w_fns := w_fns W; w_foreign := w_foreign W ++ [f];
-                w_structs := w_structs W; w_last := w_last W |}).
+                w_structs := w_structs W; w_last := w_last W; w_units := w_units W |}).
   assert (Hext : wext W W').
   { repeat split; simpl; try (exists []; rewrite app_nil_r; reflexivity). exists [f]. reflexivity. }
   eexists 0, _. split; [reflexivity|].
@@ -1748,7 +1773,7 @@ Lemma step_struct : forall n sn fs st rst rst' ms,
   exists k ms', steps O C k ms = Some ms' /\ Inv (cstmt (SStruct sn fs) st) rst' ms'.
 Proof.
   intros n sn fs st rst rst' ms HI Hpre H. simpl in H. inversion H; subst rst'; clear H.
-  pose proof Hpre as (_ & _ & _ & _ & [r5 Est]). simpl in Est.
+  pose proof Hpre as (_ & _ & _ & _ & [r5 Est] & _). simpl in Est.
   destruct HI as (Hp & Hrel & Hloc & Hst & Hf & Hlen & Ems).
   set (W := r_world rst) in *.
   assert (Hst' : match assoc sn (w_structs W) with
@@ -1763,14 +1788,14 @@ Proof.
                            w_structs := match assoc sn (w_structs W) with
                                         | Some _ => w_structs W
                                         | None => w_structs W ++ [(sn, fs)]
-                                        end; w_last := w_last W |}).
+                                        end; w_last := w_last W; w_units := w_units W |}).
   { repeat split; simpl; try (exists []; rewrite app_nil_r; reflexivity).
     destruct (assoc sn (w_structs W)); [exists []; rewrite app_nil_r | exists [(sn, fs)]]; reflexivity. }
   eexists 0, _. split; [reflexivity|].
   refine (conj Hpre (conj _ (conj eq_refl (conj Hst' (conj _ (conj Hlen Ems)))))).
-  - destruct Hrel as (H1 & H2 & H3 & H4 & H5 & H6 & H7).
+  - destruct Hrel as (H1 & H2 & H3 & H4 & H5 & H6 & H7 & H8).
     unfold cenv_rel. simpl.
-    refine (conj H1 (conj H2 (conj H3 (conj H4 (conj H5 (conj _ _)))))).
+    refine (conj H1 (conj H2 (conj H3 (conj H4 (conj H5 (conj _ (conj _ H8))))))).
     + exists r5. exact Est.
     + exists []. rewrite app_nil_r. exact Hst'.
   - simpl. eapply funs_inv_grow_same; [exact Hf | exact Hext | reflexivity].
@@ -1827,6 +1852,76 @@ Proof.
 Qed.
 
 
+Lemma unit_lookup_snoc : forall x l n k,
+  unit_lookup x (l ++ [(n, k)]) = if String.eqb n x then Some k else unit_lookup x l.
+Proof.
+  induction l as [|[y c] l IH]; intros n k; simpl.
+  - destruct (String.eqb n x); reflexivity.
+  - rewrite IH. destruct (String.eqb n x); reflexivity.
+Qed.
+
+Lemma step_dim : forall n st rst rst' ms,
+  Inv st rst ms -> exec_stmt O lits n SDim rst = Ok rst' ->
+  exists k ms', steps O C k ms = Some ms' /\ Inv (cstmt SDim st) rst' ms'.
+Proof.
+  intros n st rst rst' ms HI H. simpl in H. inversion H; subst rst'.
+  exists 0, ms. split; [reflexivity | exact HI].
+Qed.
+
+Lemma step_unit : forall n u st rst rst' ms,
+  Inv st rst ms -> pre (cstmt (SUnitBase u) st) fin ->
+  exec_stmt O lits n (SUnitBase u) rst = Ok rst' ->
+  exists k ms', steps O C k ms = Some ms' /\ Inv (cstmt (SUnitBase u) st) rst' ms'.
+Proof.
+  intros n u st rst rst' ms HI Hpre H. simpl in H. inversion H; subst rst'; clear H.
+  pose proof Hpre as ([r1 Ek] & _). simpl in Ek.
+  destruct HI as (Hp & Hrel & Hloc & Hst & Hf & Hlen & Ems).
+  set (W := r_world rst) in *.
+  set (W' := {| w_globals := w_globals W; w_fns := w_fns W; w_foreign := w_foreign W;
+                w_structs := w_structs W; w_last := w_last W; w_units := w_units W ++ [u] |}).
+  assert (Hext : wext W W').
+  { repeat split; simpl; try (exists []; rewrite app_nil_r; reflexivity). exists [u]. reflexivity. }
+  eexists 0, _. split; [reflexivity|].
+  refine (conj Hpre (conj _ (conj eq_refl (conj Hst (conj _ (conj Hlen Ems)))))).
+  - destruct Hrel as (H1 & H2 & H3 & H4 & H5 & H6 & H7 & H8).
+    unfold cenv_rel. simpl.
+    refine (conj H1 (conj H2 (conj H3 (conj H4 (conj H5 (conj H6 (conj H7 _))))))).
+    intros x i Hx. rewrite unit_lookup_snoc in Hx. rewrite mem_app. simpl.
+    destruct (String.eqb u x) eqn:E.
+    + apply String.eqb_eq in E. subst x. inversion Hx; subst i. split.
+      * rewrite Ek. rewrite <- app_assoc. rewrite nth_error_app2, Nat.sub_diag by lia. reflexivity.
+      * rewrite String.eqb_refl. apply orb_true_r.
+    + destruct (H8 x i Hx) as [A B]. split; [exact A | rewrite B; reflexivity].
+  - simpl. eapply funs_inv_grow_same; [exact Hf | exact Hext | reflexivity].
+Qed.
+
+Lemma step_type : forall n text st rst rst' ms,
+  Inv st rst ms -> pre (cstmt (SType text) st) fin ->
+  exec_stmt O lits n (SType text) rst = Ok rst' ->
+  exists k ms', steps O C k ms = Some ms' /\ Inv (cstmt (SType text) st) rst' ms'.
+Proof.
+  intros n text st rst rst' ms HI Hpre H. simpl in H. inversion H; subst rst'; clear H.
+  pose proof Hpre as (_ & [r1 Em] & _ & _ & _ & [r6 Es]). simpl in Em, Es.
+  destruct HI as (Hp & Hrel & Hloc & Hst & Hf & Hlen & Ems).
+  assert (Hm : nomark [chk16 (length (s_strings st)) (IPrintString (length (s_strings st)))]).
+  { eapply (main_nomark (s_main st) _ r1). exact Em. }
+  apply nomark_one in Hm. destruct Hm as [Hm _]. apply chk16_ok in Hm. destruct Hm as [Hm _].
+  rewrite Hm in Em.
+  assert (Ha : at_code C 0 (csize (s_main st)) [IPrintString (length (s_strings st))]).
+  { exists "<main>"%string, (s_main st), r1. split; [|reflexivity].
+    rewrite main_chunk, Em. rewrite <- app_assoc. reflexivity. }
+  set (stk := rev (map snd (w_globals (r_world rst)))).
+  assert (S1 : steps O C 1 (St 0 (csize (s_main st)) 0 [] stk ms)
+               = Some {| m_frames := [F 0 (csize (s_main st) + 3) 0]; m_stack := stk;
+                         m_last := m_last ms; m_out := m_out ms ++ [text]; m_res := m_res ms |}).
+  { eapply run_one; [exact Ha|]. simpl. rewrite Es.
+    rewrite <- app_assoc. rewrite nth_error_app2, Nat.sub_diag by lia. reflexivity. }
+  eexists 1, _. split.
+  - rewrite <- S1. f_equal. rewrite Ems. reflexivity.
+  - refine (conj Hpre (conj Hrel (conj Hloc (conj Hst (conj Hf (conj Hlen _)))))).
+    simpl. rewrite Hm. rewrite csize_app. simpl. rewrite Ems. simpl. try rewrite Nat.add_0_r. reflexivity.
+Qed.
+
 Lemma stmt_step : forall n s st rst rst' ms,
   Inv st rst ms -> pre (cstmt s st) fin ->
   exec_stmt O lits n s rst = Ok rst' ->
@@ -1839,6 +1934,9 @@ Proof.
   - eapply step_foreign; eassumption.
   - eapply step_struct; eassumption.
   - eapply step_proc; eassumption.
+  - eapply step_dim; eassumption.
+  - eapply step_unit; eassumption.
+  - eapply step_type; eassumption.
 Qed.
 
 Lemma stmts_run : forall n p st rst rst' ms,
@@ -1887,8 +1985,8 @@ Proof.
       + intro x. split; reflexivity.
       + destruct (cstmts_pre p (cinit (procs O))) as (_ & _ & _ & [r E] & _). exists r. exact E.
       + intro x. rewrite app_nil_r. apply index_of_mem.
-      + destruct (cstmts_pre p (cinit (procs O))) as (_ & _ & _ & _ & [r E]). exists r. exact E.
-      + exists []. reflexivity.
+      + destruct (cstmts_pre p (cinit (procs O))) as (_ & _ & _ & _ & [r E] & _). exists r. exact E.
+      + split; [exists []; reflexivity | intros x i Hx; discriminate].
     - intros i name fd Hi. destruct i; discriminate. }
   destruct (stmts_run O lits fin Hok n p _ _ _ _ HI eq_refl Hrun)
     as (k & ms' & S & HI').
